@@ -520,7 +520,7 @@ func converge(r *core.Run, reconfigure bool) {
 	}
 	// directories
 	src.Begin("dirs")
-	pool := append([]string(nil), dirPool...)
+	pool := append([]string(nil), dirPoolNested...)
 	n := 1 + src.Intn(3)
 	for len(c.dirs) < n {
 		i := src.Intn(len(pool))
